@@ -139,7 +139,20 @@ class Harness:
         # (first definition per (service, OS) / (process, OS)), else the Action object
         if act.kind not in ("exploit", "privesc") or (act.kind, act.name) in self.expressible:
             from .check_c12 import vector_of
-            return vector_of(self.spec, act)
+            v = vector_of(self.spec, act)
+            # the spellings a MultiDiscrete member comes in: list, int64 array, and the narrow integer types
+            # (every entry of a member fits them whenever the space's own nvec does)
+            self.n_vec = getattr(self, "n_vec", 0) + 1
+            k = (self.n_vec + i) % 5
+            if k == 1:
+                return np.array(v)
+            if k == 2 and max(v) < 128:
+                return np.array(v, dtype=np.int8)
+            if k == 3 and max(v) < 256:
+                return np.array(v, dtype=np.uint8)
+            if k == 4:
+                return tuple(v)
+            return v
         return self.real_actions[i]
 
     def hand_built(self, act):
